@@ -281,7 +281,7 @@ class TensorBufferStager(BufferStager):
             raise ValueError(f"Unrecognized serializer: {self.entry.serializer}.")
 
     def _should_copy_cpu_tensor(self) -> bool:
-        if self.entry.serializer == Serializer.BUFFER_PROTOCOL and (
+        if self.entry.serializer == Serializer.BUFFER_PROTOCOL.value and (
             self.is_async_snapshot or not self.tensor.is_contiguous()
         ):
             # During async snapshot, it's not safe to use
